@@ -691,9 +691,27 @@ def run(case, res):
                     with pyrtl.set_working_block(ab.block, no_sanity_check=True):
                         late = pyrtl.Output(name='late_o')
                         late <<= ~(plain[0] ^ plain[len(plain) // 2]) + 1
+                        hs = sched.get('hash_seed', 0)
+                        if hs % 3 == 0:
+                            # a wire class of the user's own ("each class inheriting from
+                            # WireVector should overload _code accordingly", wire.py)
+                            class PinInput(pyrtl.Input):
+                                _code = 'P'
+                            pin = PinInput(3, 'late_pin')
+                            pin_o = pyrtl.Output(name='late_pin_o')
+                            pin_o <<= pin + plain[0]
+                            res.probes.hit('user_subclass_of_Input')
+                        if hs % 4 == 1:
+                            # one very wide concat (a bus assembled bit by bit)
+                            src = plain[0]
+                            wide = pyrtl.Output(name='late_wide')
+                            wide <<= pyrtl.concat_list([src[i % len(src)] for i in range(256)])
+                            res.probes.hit('concat_of_256_operands')
                     ab.block.sanity_check()
                     pyrtl.Simulation(tracer=pyrtl.SimulationTrace('all', block=ab.block), block=ab.block)
-                except (pyrtl.PyrtlError, pyrtl.PyrtlInternalError) as e:
+                    pyrtl.FastSimulation(tracer=pyrtl.SimulationTrace('all', block=ab.block), block=ab.block)
+                    list(ab.block)
+                except (pyrtl.PyrtlError, pyrtl.PyrtlInternalError, SyntaxError) as e:
                     return Violation('valid_design', 'design_extended_after_reset_working_block_rejected',
                                      {'exc': repr(e)[:300]}, ['positive', 'api', 'second_sitting'])
                 res.probes.hit('second_sitting_after_reset')
